@@ -406,6 +406,9 @@ type FakeServer struct {
 	Plan     func(method, kind string, nth int) FakeAction // nil = everything ok
 	// NoEndpoint (legacy): the event stream is accepted and its headers are flushed, but the endpoint event never comes.
 	NoEndpoint bool
+	// StallPosts: once set, every further POST is read and then left without a response until its peer gives up.
+	StallPosts atomic.Bool
+	Accepted   atomic.Int64 // legacy: requests acknowledged with 202
 
 	mu      sync.Mutex
 	counts  map[string]int
@@ -638,6 +641,10 @@ func (f *FakeServer) serveLegacy(w http.ResponseWriter, r *http.Request) {
 			return
 		}
 		body, _ := io.ReadAll(r.Body)
+		if f.StallPosts.Load() {
+			<-r.Context().Done()
+			return
+		}
 		var m struct {
 			ID     json.RawMessage `json:"id"`
 			Method string          `json:"method"`
@@ -651,6 +658,7 @@ func (f *FakeServer) serveLegacy(w http.ResponseWriter, r *http.Request) {
 			return
 		}
 		w.WriteHeader(http.StatusAccepted)
+		f.Accepted.Add(1)
 		if kind == "request" && act.Kind == "fault" {
 			body := "event: message\ndata: " + renderRaw(act.Raw, method, m.ID, m.Params) + "\n\n"
 			cut := act.Cut
